@@ -313,6 +313,8 @@ def build_unit(repo, overlay_path, out_path):
             body = open_annotations(b["text"])
         else:
             body = transplant(b["text"], new_toks, it.kind)
+            if wrap:
+                body = "\n".join("    " + l for l in body.split("\n"))
             report["changed"].append({"key": b["key"], "path": b["path"]})
         origin = {"kind": "item", "key": b["key"], "path": b["path"], "src_line": src_line, "ovl_line": b["line"],
                   "changed": changed, "rules": fired}
